@@ -67,8 +67,10 @@ Qed.
 Lemma eds_gauges : forall v labels, mon_eds_gauges v (eds_families v labels) = true.
 Proof.
   intros v labels. unfold eds_families. destruct (build_info_labels labels) as [ks vs].
-  unfold mon_eds_gauges, fam_value_is, lookup_series. cbn [find s_family String.eqb Ascii.eqb Bool.eqb s_value].
-  rewrite !Z.eqb_refl. reflexivity.
+  unfold mon_eds_gauges, fam_value_is, lookup_series, base_labels.
+  destruct (ev_canary v) as [[rs n]|]; destruct (ev_canary_paused v) as [r|];
+    cbn [find s_family String.eqb Ascii.eqb Bool.eqb s_value s_labels existsb app fst snd orb andb];
+    rewrite !Z.eqb_refl; reflexivity.
 Qed.
 
 Lemma ers_gauges : forall v labels, mon_ers_gauges v (ers_families v labels) = true.
